@@ -12,6 +12,17 @@
 (*   AuthOK(n,c,x)     packet_handler_handshake.go after a successful control handshake:      *)
 (*                     old := reg[n][x]; if old # c: UnregisterConnection(old), registry      *)
 (*                     Remove(old) (closes its stream); UpdateAuth; RegisterConnection(c)     *)
+(*   AuthLost(n,c,x)   the same handshake when the credential check passes but the response   *)
+(*                     cannot be delivered (peer gone: the client gave up on n and may be     *)
+(*                     live elsewhere): handleHandshake returns the write error BEFORE its     *)
+(*                     registry section - NOT a successful handshake, nothing is registered;  *)
+(*                     the connection is dead and its read loop will end (Close, why=peer).   *)
+(*                     BUT the registry section runs after ANY response that was written, if   *)
+(*                     the connection object is authenticated: on a connection that already    *)
+(*                     completed an earlier handshake as x, the challenge response of phase 1  *)
+(*                     (Success=false) is followed by RegisterConnection - the unfinished      *)
+(*                     handshake moves x's location (fix "successOnly": register only when     *)
+(*                     this handshake round reported success)                                  *)
 (*   Heartbeat(n,c)    command_integration.go handleHeartbeat: refreshes the cloud-control    *)
 (*                     client state only; connstate.RefreshConnection has NO caller           *)
 (*                     (fix "hbRefresh": refresh record + index TTL)                          *)
@@ -19,6 +30,14 @@
 (*                     GetConnectionState(c); if readable and control: Delete(clientIdx[x])   *)
 (*                     UNCONDITIONALLY (fix "condIdxDelete": only if it still names c);       *)
 (*                     Delete(connRec[c])                                                     *)
+(*                     Close carries its CAUSE (field w of the event): "peer" the read loop     *)
+(*                     ended (adapter cleanupConnection -> CloseConnection); "cmd" the client  *)
+(*                     sent a Disconnect command (handleDisconnectCommand -> CloseConnection);*)
+(*                     "sweep" heartbeat timeout: ClientRegistry.CleanupStale removes the      *)
+(*                     registry entry FIRST, then calls CloseConnection; "kick"                *)
+(*                     KickOldControlConnection removes the entry and closes the stream, the   *)
+(*                     read loop then ends -> CloseConnection.  Every cause ends in            *)
+(*                     CloseConnection -> UnregisterConnection, so the store effect is one.    *)
 (*   LateCleanup(n,c)  the same code path, taken for a connection whose client has meanwhile  *)
 (*                     completed a newer handshake (old node notices late)                    *)
 (*   Tick              discrete clock; both keys lose one tick of remaining lifetime and      *)
@@ -35,7 +54,8 @@
 (* Deviations from the property are recorded per client in dev[x] (reset by x's next          *)
 (* handshake): "shape" (registration stored in a shape lookups cannot read), "lateCleanup"    *)
 (* (an unregister erased an index naming another connection), "ttlLapse" (record or index of  *)
-(* a heart-beating connection ran out).                                                       *)
+(* a heart-beating connection ran out), "phase1Moves" (an unfinished handshake re-registered   *)
+(* an older connection over the location of the client's most recent successful handshake).   *)
 (*   as-is     (fixes = {}):  FindLive is violated (run ConnState_asis.cfg to see the trace); *)
 (*                            FindLiveOrDev, FindClosed hold - every route to a violation     *)
 (*                            goes through a named deviation.                                 *)
@@ -46,24 +66,28 @@ CONSTANTS Nodes, NConns, Clients,  \* connections c1..cN are used in this order 
           TTL,                     \* registration lifetime in ticks (heartbeat period = 1 tick)
           MaxClock, MaxHist,
           Shapes,                  \* backend shapes explored: subset of {"ptr", "str", "map"}
-          FixSets,                 \* sets of repairs explored: subsets of {"ptrShape", "condIdxDelete", "hbRefresh"}
+          FixSets,                 \* sets of repairs explored: subsets of AllFixes
+          Causes,                  \* close causes explored: subset of {"peer", "cmd", "sweep", "kick"} (one store effect)
           Emit, Only               \* Only = "dev": print a behaviour only when its last event records a deviation
 
 VARIABLES shape,    \* what the configured backend hands back for connRec (fixed per behaviour)
           fixes,    \* which repairs the code has (fixed per behaviour; {} = as-is)
           connRec, clientIdx, clock,
-          cst,      \* connection -> [st |-> "new"|"open"|"evicted"|"closed", node, auth]
+          cst,      \* connection -> [st |-> "new"|"open"|"evicted"|"dead"|"closed", node, auth]
+                    \*   evicted = the server closed its stream (re-login on the node), dead = the peer is gone
+                    \*   (a write failed); both still await CloseConnection
           reg,      \* node -> client -> connection | "-"          (local ClientRegistry)
           last,     \* ghost: client -> connection of its most recent successful handshake | "-"
           hb,       \* ghost: connection -> handshake or heartbeat seen in the current tick
           alive,    \* ghost: connection -> heart-beaten in every tick since its handshake
           dev,      \* ghost: client -> set of deviation names since its latest handshake
+          lost,     \* ghost: client -> an undeliverable handshake of it happened since its latest successful one
           hist
-vars == <<shape, fixes, connRec, clientIdx, clock, cst, reg, last, hb, alive, dev, hist>>
+vars == <<shape, fixes, connRec, clientIdx, clock, cst, reg, last, hb, alive, dev, lost, hist>>
 \* lifetimes are kept as REMAINING ticks, so the state graph without the clock is finite and the
 \* exhaustive check covers sessions of any length; the generator keeps the clock to bound sleeps
-view    == <<shape, fixes, connRec, clientIdx, cst, reg, last, hb, alive, dev>>
-genview == <<shape, fixes, connRec, clientIdx, clock, cst, reg, last, hb, alive, dev>>
+view    == <<shape, fixes, connRec, clientIdx, cst, reg, last, hb, alive, dev, lost>>
+genview == <<shape, fixes, connRec, clientIdx, clock, cst, reg, last, hb, alive, dev, lost>>
 
 AllConns == <<"c1", "c2", "c3", "c4">>
 ConnName(i) == AllConns[i]
@@ -72,7 +96,7 @@ NoRec == [node |-> "-", client |-> "-", ttl |-> 0]     \* ttl = remaining lifeti
 NoIdx == [conn |-> "-", ttl |-> 0]
 Fresh == [st |-> "new", node |-> "-", auth |-> "-"]
 
-AllFixes == {"ptrShape", "condIdxDelete", "hbRefresh"}
+AllFixes == {"ptrShape", "condIdxDelete", "hbRefresh", "successOnly"}
 Init == /\ shape \in Shapes /\ fixes \in FixSets
         /\ connRec = [c \in ConnSet |-> NoRec]
         /\ clientIdx = [x \in Clients |-> NoIdx]
@@ -83,12 +107,29 @@ Init == /\ shape \in Shapes /\ fixes \in FixSets
         /\ hb = [c \in ConnSet |-> FALSE]
         /\ alive = [c \in ConnSet |-> FALSE]
         /\ dev = [x \in Clients |-> {}]
+        /\ lost = [x \in Clients |-> FALSE]
         /\ hist = <<>>
 
-Out(h) == IF Emit /\ (Only = "dev" => \E x \in Clients : dev'[x] \ dev[x] # {}) THEN PrintT("BEH " \o ToJson(h)) ELSE TRUE
-Log(a, n, c, x) == /\ hist' = Append(hist, [a |-> a, n |-> n, c |-> c, x |-> x])
-                   /\ shape' = shape /\ fixes' = fixes
-                   /\ Out(hist')
+\* generation filter (evaluated on the step being taken; definitions further down):
+\*   "dev"   the step records a deviation of the as-is model
+\*   "lost"  an undeliverable handshake while the client is connected elsewhere, or a later
+\*           heartbeat / close while that client is still connected
+\*   "close" a close by command / kick / stale sweep of the client's last connection while the
+\*           lookup still found the client
+ConnectedP(x) == last'[x] # "-" /\ cst'[last'[x]].st = "open" /\ alive'[last'[x]]
+AllClosedP(x) == \A c \in ConnSet : cst'[c].auth = x => cst'[c].st \in {"closed", "evicted"}
+Wanted(e, foundBefore) ==
+  CASE Only = "dev"   -> \E x \in Clients : dev'[x] \ dev[x] # {}
+    [] Only = "lost"  -> \/ e.a = "AuthLost" /\ ConnectedP(e.x)
+                         \/ e.a \in {"HB", "Close", "Late"} /\ \E x \in Clients : lost'[x] /\ ConnectedP(x)
+    [] Only = "close" -> e.a \in {"Close", "Late"} /\ e.w # "peer" /\ e.x # "-" /\ foundBefore /\ AllClosedP(e.x)
+    [] OTHER -> TRUE
+LogW(a, n, c, x, w, foundBefore) ==
+  LET e == [a |-> a, n |-> n, c |-> c, x |-> x, w |-> w] IN
+  /\ hist' = Append(hist, e)
+  /\ shape' = shape /\ fixes' = fixes
+  /\ IF Emit /\ Wanted(e, foundBefore) THEN PrintT("BEH " \o ToJson(hist')) ELSE TRUE
+Log(a, n, c, x) == LogW(a, n, c, x, "-", FALSE)
 
 \* ---- the store as the backend presents it -------------------------------------------------
 KeyLive(e, t) == e.ttl > 0
@@ -125,7 +166,7 @@ NextConn == LET used == {i \in 1..NConns : cst[ConnName(i)].st # "new"}
 Connect(n, c) ==
   /\ c = NextConn
   /\ cst' = [cst EXCEPT ![c] = [st |-> "open", node |-> n, auth |-> "-"]]
-  /\ UNCHANGED <<connRec, clientIdx, clock, reg, last, hb, alive, dev>>
+  /\ UNCHANGED <<connRec, clientIdx, clock, reg, last, hb, alive, dev, lost>>
   /\ Log("Connect", n, c, "-")
 
 AuthOK(n, c, x) ==
@@ -146,8 +187,26 @@ AuthOK(n, c, x) ==
   /\ last' = [last EXCEPT ![x] = c]
   /\ hb' = [hb EXCEPT ![c] = TRUE]
   /\ alive' = [alive EXCEPT ![c] = TRUE]
+  /\ lost' = [lost EXCEPT ![x] = FALSE]
   /\ UNCHANGED clock
   /\ Log("Auth", n, c, x)
+
+\* credential check passed, response undeliverable: handleHandshake returns before its registry
+\* section, so the failing phase-2 round has no store effect.  Phase 1 of that round (challenge
+\* written successfully) has one, as-is, when c is already authenticated as x from an earlier
+\* handshake: it re-registers c (reg[n][x] = c holds for such a connection - a later login of x on
+\* n would have evicted it - so nothing is evicted).
+AuthLost(n, c, x) ==
+  /\ cst[c].st = "open" /\ cst[c].node = n /\ cst[c].auth \in {"-", x}
+  /\ cst' = [cst EXCEPT ![c].st = "dead"]
+  /\ lost' = [lost EXCEPT ![x] = TRUE]
+  /\ IF cst[c].auth = x /\ "successOnly" \notin fixes
+     THEN /\ connRec' = [connRec EXCEPT ![c] = [node |-> n, client |-> x, ttl |-> TTL]]
+          /\ clientIdx' = [clientIdx EXCEPT ![x] = [conn |-> c, ttl |-> TTL]]
+          /\ dev' = IF last[x] # c THEN [dev EXCEPT ![x] = @ \cup {"phase1Moves"}] ELSE dev
+     ELSE UNCHANGED <<connRec, clientIdx, dev>>
+  /\ UNCHANGED <<clock, reg, last, hb, alive>>
+  /\ Log("AuthLost", n, c, x)
 
 Heartbeat(n, c) ==
   /\ cst[c].st = "open" /\ cst[c].node = n /\ cst[c].auth # "-"
@@ -158,22 +217,28 @@ Heartbeat(n, c) ==
           /\ clientIdx' = IF KeyLive(clientIdx[x], clock) /\ clientIdx[x].conn = c
                           THEN [clientIdx EXCEPT ![x].ttl = TTL] ELSE clientIdx
      ELSE UNCHANGED <<connRec, clientIdx>>
-  /\ UNCHANGED <<clock, cst, reg, last, alive, dev>>
+  /\ UNCHANGED <<clock, cst, reg, last, alive, dev, lost>>
   /\ Log("HB", n, c, cst[c].auth)
 
-\* CloseConnection(c): the read loop of c ended (peer closed, stale sweep, or reaped after eviction)
-CloseEffect(n, c) ==
-  /\ cst[c].st \in {"open", "evicted"} /\ cst[c].node = n
+\* CloseConnection(c), by cause w
+CanClose(n, c, w) ==
+  /\ cst[c].node = n
+  /\ CASE w = "peer" -> cst[c].st \in {"open", "evicted", "dead"}
+       [] w \in {"cmd", "sweep"} -> cst[c].st = "open" /\ cst[c].auth # "-"      \* a registered control connection
+       [] w = "kick" -> cst[c].st = "open" /\ cst[c].auth # "-" /\ reg[n][cst[c].auth] = c
+CloseEffect(n, c, w) ==
+  /\ CanClose(n, c, w)
   /\ LET u == Unreg(connRec, clientIdx, c) x == cst[c].auth IN
      /\ connRec' = u.cr /\ clientIdx' = u.ix
      /\ dev' = IF u.late THEN [dev EXCEPT ![u.x] = @ \cup {"lateCleanup"}] ELSE dev
      /\ reg' = IF x # "-" /\ reg[n][x] = c THEN [reg EXCEPT ![n][x] = "-"] ELSE reg
   /\ cst' = [cst EXCEPT ![c].st = "closed"]
-  /\ UNCHANGED <<clock, last, hb, alive>>
+  /\ UNCHANGED <<clock, last, hb, alive, lost>>
 
 Superseded(c) == cst[c].auth # "-" /\ last[cst[c].auth] # c
-Close(n, c)       == ~Superseded(c) /\ CloseEffect(n, c) /\ Log("Close", n, c, cst[c].auth)
-LateCleanup(n, c) == Superseded(c)  /\ CloseEffect(n, c) /\ Log("Late", n, c, cst[c].auth)
+FoundNow(c) == cst[c].auth # "-" /\ Find(cst[c].auth).r = "found"
+Close(n, c, w)       == ~Superseded(c) /\ CloseEffect(n, c, w) /\ LogW("Close", n, c, cst[c].auth, w, FoundNow(c))
+LateCleanup(n, c, w) == Superseded(c)  /\ CloseEffect(n, c, w) /\ LogW("Late", n, c, cst[c].auth, w, FoundNow(c))
 
 Tick ==
   /\ clock < MaxClock
@@ -187,13 +252,14 @@ Tick ==
                THEN dev[x] \cup {"ttlLapse"} ELSE dev[x]]
   /\ connRec' = [c \in ConnSet |-> IF connRec[c].ttl <= 1 THEN NoRec ELSE [connRec[c] EXCEPT !.ttl = @ - 1]]
   /\ clientIdx' = [x \in Clients |-> IF clientIdx[x].ttl <= 1 THEN NoIdx ELSE [clientIdx[x] EXCEPT !.ttl = @ - 1]]
-  /\ UNCHANGED <<cst, reg, last>>
+  /\ UNCHANGED <<cst, reg, last, lost>>
   /\ Log("Tick", "-", "-", "-")
 
 Next == \/ Tick
         \/ \E n \in Nodes, c \in ConnSet :
-             \/ Connect(n, c) \/ Heartbeat(n, c) \/ Close(n, c) \/ LateCleanup(n, c)
-             \/ \E x \in Clients : AuthOK(n, c, x)
+             \/ Connect(n, c) \/ Heartbeat(n, c)
+             \/ \E w \in Causes : Close(n, c, w) \/ LateCleanup(n, c, w)
+             \/ \E x \in Clients : AuthOK(n, c, x) \/ AuthLost(n, c, x)
 Spec == Init /\ [][Next]_vars
 
 Bounded == Len(hist) <= MaxHist
@@ -214,6 +280,6 @@ Repaired      == fixes = AllFixes => (FindLive /\ NoDev)
 IndexSound == \A x \in Clients : KeyLive(clientIdx[x], clock) => cst[clientIdx[x].conn].auth = x
 
 TypeOK == /\ clock \in 0..MaxClock
-          /\ \A c \in ConnSet : cst[c].st \in {"new", "open", "evicted", "closed"}
-          /\ \A x \in Clients : last[x] \in ConnSet \cup {"-"} /\ dev[x] \subseteq {"shape", "lateCleanup", "ttlLapse"}
+          /\ \A c \in ConnSet : cst[c].st \in {"new", "open", "evicted", "dead", "closed"}
+          /\ \A x \in Clients : last[x] \in ConnSet \cup {"-"} /\ dev[x] \subseteq {"shape", "lateCleanup", "ttlLapse", "phase1Moves"}
 =============================================================================
